@@ -339,7 +339,7 @@ def run_special(case):
     p = case["params"]
     rnd = random.Random(p["seed"])
     t0 = time.perf_counter()
-    agree, disagreements, samples = 0, [], []
+    agree, disagreements, samples, skipped = 0, [], [], []
     n = 0
     while n < p["n"]:
         nthreads, rounds = (2, [1, 1]) if n % 2 == 0 else (2, [1, 2])
@@ -352,6 +352,9 @@ def run_special(case):
             continue
         n += 1
         r = run_real(tr, nthreads, rounds)
+        if r == "replay-timeout":  # machine too loaded to enforce the schedule in time: not a disagreement
+            skipped.append(plan)
+            continue
         same = (v is None and r is None) or (v is not None and r is not None and not isinstance(r, str))
         if same:
             agree += 1
@@ -362,7 +365,8 @@ def run_special(case):
                             "real": r if isinstance(r, str) else (r and r[0])})
     res = {"paths": n, "confirmed": agree, "refuted": 0, "unknown": len(disagreements), "ignored": 0, "exhausted": not disagreements,
            "timed_out": False, "z3_calls": 0, "z3_secs": 0.0, "obligations": n, "validated_concretely": agree, "counterexamples": [],
-           "samples": samples, "queries": {"schedules_run_on_real_threads": n, "agreeing": agree, "disagreements": disagreements[:5]}}
+           "samples": samples, "queries": {"schedules_run_on_real_threads": n, "agreeing": agree, "disagreements": disagreements[:5],
+                       "skipped_for_timeout": len(skipped)}}
     if disagreements:
         raise RuntimeError(f"sequentialised model and real threads disagree: {disagreements[:3]}")
     return res
